@@ -15,6 +15,10 @@ independent sub-family of `n − k` generators ⇒ `HasRank (2n) rowsH (n − k)
 that `stabilizer_matrix`, `logicals_x`, `logicals_z` of the generic code model (`Model/Code.lean`,
 C02) assemble from this lattice model form a valid `[[n, k]]` stabilizer code (`ValidCodeL`: all
 four clauses of C01, rank included) for EVERY size of the family.
+
+The family of the rank clause is the whole list `(lattice Lx Ly).stabs`; the driver op `rankfamily` prints it
+and the stream `lat-RotatedPlanar2DCode-rank-family` evaluates it on the IMPLEMENTATION's parity-check
+matrix on every run (members `n − k`, all distinct stabilizer locations, GF(2) rank `n − k`).
 -/
 import PanqecVerif.Proofs.Lat2DRankBridge
 import PanqecVerif.Proofs.LatRotatedPlanar2DCodeRank
